@@ -68,6 +68,10 @@ type c03lLegacy struct {
 	Slot    int  `json:"slot"`
 	Present bool `json:"present"` // pod object exists at start
 	UID     bool `json:"uid"`     // binding records the pod UID (false: taken over from a version without UIDs)
+	// Takeover: the pod runs (object present, sandbox up) and REPORTS its addresses, but
+	// the record has not linked them to it (record rebuilt from the cloud, first sync,
+	// migration from the in-agent IPAM): the first reconcile has to take them over.
+	Takeover bool `json:"takeover,omitempty"`
 }
 
 type c03lOp struct {
@@ -104,8 +108,12 @@ func c03lGen(t *rapid.T) c03lScenario {
 	nPods := rapid.IntRange(1, vt.Scale(4, 6)).Draw(t, "nPods")
 	nLegacy := rapid.SampledFrom([]int{0, 0, 0, 1, 2}).Draw(t, "nLegacy")
 	for i := 0; i < nLegacy && i < nPods; i++ {
-		s.Legacy = append(s.Legacy, c03lLegacy{Slot: nPods - 1 - i,
-			Present: rapid.Bool().Draw(t, "legacyPresent"), UID: rapid.IntRange(0, 2).Draw(t, "legacyUID") == 0})
+		lg := c03lLegacy{Slot: nPods - 1 - i,
+			Present: rapid.Bool().Draw(t, "legacyPresent"), UID: rapid.IntRange(0, 2).Draw(t, "legacyUID") == 0}
+		if rapid.IntRange(0, 2).Draw(t, "legacyTakeover") == 0 {
+			lg.Takeover, lg.Present = true, true
+		}
+		s.Legacy = append(s.Legacy, lg)
 	}
 	// Histories are drawn with a small abstract model of each pod's lifecycle that only
 	// steers the CHOICE of the next operation: two thirds of the steps take a "natural"
@@ -115,7 +123,9 @@ func c03lGen(t *rapid.T) c03lScenario {
 	type pm struct{ obj, bound, sandbox, ever, delPending, reported bool }
 	model := make([]pm, nPods)
 	for _, lg := range s.Legacy {
-		if lg.Present {
+		if lg.Takeover {
+			model[lg.Slot] = pm{obj: true, sandbox: true, ever: true} // gets bound by the first reconcile
+		} else if lg.Present {
 			model[lg.Slot] = pm{obj: true, bound: true, sandbox: true, ever: true}
 		} else {
 			model[lg.Slot] = pm{ever: true}
@@ -303,6 +313,8 @@ type c03lWorld struct {
 	conflict       bool
 
 	slots      []*c03lSlot
+	owners     map[string]c03cloud.Owner // ground truth: the pod object each binding was made for
+	takeover   map[string]bool           // pods that run on addresses the record has not linked to them
 	delIssued  map[string]bool // uid -> a DEL for the (last) sandbox of this pod was processed without error
 	verified   map[string]bool // uid -> the GC's API re-check answered "does not exist"
 	vnow       time.Time
@@ -313,7 +325,8 @@ func c03lPodName(k int) string { return fmt.Sprintf("p%d", k) }
 func c03lPodID(k int) string   { return "ns/" + c03lPodName(k) }
 
 func c03lNewWorld(c *vt.Ctx, s c03lScenario) *c03lWorld {
-	w := &c03lWorld{c: c, s: s, delIssued: map[string]bool{}, verified: map[string]bool{}}
+	w := &c03lWorld{c: c, s: s, delIssued: map[string]bool{}, verified: map[string]bool{},
+		owners: map[string]c03cloud.Owner{}, takeover: map[string]bool{}}
 	w.vnow = time.Now().Add(-2 * time.Hour).Truncate(time.Second)
 	w.ctx = aliyunClient.SetBackendAPI(context.Background(), aliyunClient.BackendAPIECS)
 	w.cloud = c03cloud.New("i-1", "vsw-1", "zone-a")
@@ -427,14 +440,23 @@ func c03lNewWorld(c *vt.Ctx, s c03lScenario) *c03lWorld {
 			if lg.UID {
 				rec = uid
 			}
-			ni.IPv4[e.V4[j+1]].PodID, ni.IPv4[e.V4[j+1]].PodUID = c03lPodID(lg.Slot), rec
 			ips := []string{e.V4[j+1]}
 			if s.V6 {
-				ni.IPv6[e.V6[j]].PodID, ni.IPv6[e.V6[j]].PodUID = c03lPodID(lg.Slot), rec
 				ips = append(ips, e.V6[j])
 			}
+			if !lg.Takeover {
+				ni.IPv4[e.V4[j+1]].PodID, ni.IPv4[e.V4[j+1]].PodUID = c03lPodID(lg.Slot), rec
+				if s.V6 {
+					ni.IPv6[e.V6[j]].PodID, ni.IPv6[e.V6[j]].PodUID = c03lPodID(lg.Slot), rec
+				}
+			}
 			if lg.Present {
-				w.createPodObject(lg.Slot, uid)
+				if lg.Takeover {
+					w.createPodObject(lg.Slot, uid, ips...)
+					w.takeover[c03lPodID(lg.Slot)] = true
+				} else {
+					w.createPodObject(lg.Slot, uid)
+				}
 				// a running pod taken over: its sandbox is up, the agent has no record of it
 				sl.boxes = append(sl.boxes, &c03lSandbox{uid: uid, cid: fmt.Sprintf("c%d-legacy", lg.Slot), ips: ips, ok: true, up: true})
 			}
@@ -443,6 +465,7 @@ func c03lNewWorld(c *vt.Ctx, s c03lScenario) *c03lWorld {
 		w.must(w.cl.Get(w.ctx, client.ObjectKey{Name: c03lNode}, cur), "get node cr")
 		cur.Status.NetworkInterfaces = map[string]*networkv1beta1.NetworkInterface{e.ID: ni}
 		w.must(w.cl.Status().Update(w.ctx, cur), "seed node cr status")
+		w.owners = c03cloud.SeedOwners(cur.Status.NetworkInterfaces)
 	}
 	if !s.NoRuntime {
 		rt := &networkv1beta1.NodeRuntime{ObjectMeta: metav1.ObjectMeta{Name: c03lNode, Labels: map[string]string{"name": c03lNode}}}
@@ -485,12 +508,18 @@ func (w *c03lWorld) must(err error, what string) {
 	}
 }
 
-func (w *c03lWorld) createPodObject(k int, uid string) {
+func (w *c03lWorld) createPodObject(k int, uid string, reports ...string) {
 	sl := w.slots[k]
 	pod := &corev1.Pod{
 		ObjectMeta: metav1.ObjectMeta{Namespace: "ns", Name: c03lPodName(k), UID: k8stypes.UID(uid)},
 		Spec:       corev1.PodSpec{NodeName: c03lNode, Containers: []corev1.Container{{Name: "c", Image: "i"}}},
 		Status:     corev1.PodStatus{Phase: corev1.PodRunning},
+	}
+	for _, ip := range reports {
+		pod.Status.PodIPs = append(pod.Status.PodIPs, corev1.PodIP{IP: ip})
+	}
+	if len(reports) > 0 {
+		pod.Status.PodIP = reports[0]
 	}
 	w.must(w.cl.Create(w.ctx, pod), "create pod")
 	sl.uid, sl.exited = uid, false
@@ -900,7 +929,10 @@ func (w *c03lWorld) opReconcile(i int, op c03lOp) {
 	w.c.Trace("    record: %s", c03lShowCR(now.Status.NetworkInterfaces))
 
 	// safety
-	for _, tch := range c03cloud.Touches(prev.Status.NetworkInterfaces, now.Status.NetworkInterfaces, calls) {
+	// reclaims are judged against the ground-truth owner of a binding (the pod object it
+	// was made for), not against the UID the record happens to carry
+	prevTruth := c03cloud.WithTruth(prev.Status.NetworkInterfaces, w.owners)
+	for _, tch := range c03cloud.Touches(prevTruth, now.Status.NetworkInterfaces, calls) {
 		ok, why := c03cloud.MayReclaim(tch.PodID, tch.PodUID, pods, rt)
 		if !ok {
 			w.c.Fatalf("step %d (reconcile): %s -- but %s. pods at start: %v; runtime at start: %s",
@@ -912,6 +944,26 @@ func (w *c03lWorld) opReconcile(i int, op c03lOp) {
 			w.c.Label("reclaimed:after-teardown-report")
 		}
 		w.strict(i, tch)
+	}
+
+	c03cloud.TrackOwners(w.owners, prev.Status.NetworkInterfaces, now.Status.NetworkInterfaces, pods)
+	for _, e := range now.Status.NetworkInterfaces {
+		for _, m := range []map[string]*networkv1beta1.IP{e.IPv4, e.IPv6} {
+			for _, ip := range m {
+				if ip.PodID != "" && w.takeover[ip.PodID] {
+					w.c.Label("take-over:address-linked-to-reporting-pod")
+				}
+			}
+		}
+	}
+	for _, e := range prev.Status.NetworkInterfaces {
+		for _, m := range []map[string]*networkv1beta1.IP{e.IPv4, e.IPv6} {
+			for _, ip := range m {
+				if ip.PodID != "" && w.takeover[ip.PodID] && !c03cloud.NameStillThere(ip.PodID, pods) && !c03cloud.TeardownReported(w.owners[ip.IP].UID, rt) {
+					w.c.Label("take-over:pod-gone+report-pending")
+				}
+			}
+		}
 	}
 
 	// bounded liveness, fault-free reconciles only
